@@ -1,7 +1,9 @@
 import J5V.Compile.PermFiles
 import J5V.Compile.CacheProofs
 import J5V.Compile.PermPkgs
+import J5V.Print.Layout
 import J5V.Generated.MaprangeFacts
+import J5V.Generated.BuildersFacts
 /-!
 # C14 — compilation is deterministic
 
@@ -161,6 +163,52 @@ theorem C14_link_perm_others (others others' : List LFile) (files : List FileSke
     linkFiles others files = linkFiles others' files :=
   linkFiles_perm_others others others' files hp hnd
 
+/-! ## compile ∘ print, end to end on the models -/
+
+/-- the printed text of every file of a compile result, by file name; `view` is the descriptor the
+printer is handed for a generated file (`protoprint.PrintFile` reads a `protoreflect.FileDescriptor`
+built from the compiled `FileDescriptorProto`) -/
+def printAll (gen : String) (view : FileSkel → J5V.Print.Layout.FileD) (o : Outcome (List FileSkel)) :
+    Outcome (List (Str × String)) :=
+  o.map (List.map fun f => (f.name, J5V.Print.Layout.printText gen (view f)))
+
+/-- **Compile ∘ print is deterministic (one statement, on the models).** Take a bundle `b`, list its
+packages in any other order (`b'`), and list the files of the compiled package in any other order
+(`files'`); let the printer be handed, for each generated file, any descriptor view whose ARRANGED
+form is the same (`view` / `view'`: e.g. the same descriptor with its elements reached in another
+order — `FileD.arranged` sorts them with the printer's total order, `C05_order_total`). Then the
+result of `CompilePackage` up to the link step followed by `PrintFile` of every file — outcome class,
+file names in order, and the printed text of every file — is identical; second conjunct: the same
+for the LINKED result (`compileLinked`, fully-qualified type names) under the permuted package
+listing and the other view. Composition of
+`C14_perm_packages`, `C14_perm_files` and the statement of `C05_print_function` (printed text is a
+function of the arranged descriptor; re-derived here in two lines so that this file does not
+depend on the print cluster's Props). Hypotheses as in `C14_perm_files`: distinct package names,
+distinct export names and generated file names (true of every valid bundle). -/
+theorem C14_compile_print_deterministic (gen : String)
+    (view view' : FileSkel → J5V.Print.Layout.FileD)
+    (hview : ∀ f, (view f).arranged = (view' f).arranged)
+    (b b' : Bundle) (hpk : b.pkgs.Perm b'.pkgs) (hnd : (b.pkgs.map (·.name)).Nodup)
+    (name : Str) (p : Pkg) (files' : List SrcFile)
+    (hfind : b'.find name = some p) (hperm : p.files.Perm files') (l : Loaded)
+    (h : loadPkg b' (b'.pkgs.length + 1) [] name = .ok l)
+    (hdist : (l.exports.map (·.1)).Nodup) (hnames : (l.files.map (·.name)).Nodup) :
+    printAll gen view' (compilePkg (b'.withFiles name files') name) =
+      printAll gen view (compilePkg b name) ∧
+    printAll gen view' (compileLinked b' name) = printAll gen view (compileLinked b name) := by
+  rw [compilePkg_perm_files b' name p files' hfind hperm l h hdist hnames,
+    ← (compile_perm_pkgs b b' hpk hnd name).1, ← (compile_perm_pkgs b b' hpk hnd name).2]
+  have hfun : (fun f : FileSkel => (f.name, J5V.Print.Layout.printText gen (view' f))) =
+      fun f => (f.name, J5V.Print.Layout.printText gen (view f)) := by
+    funext f
+    have : J5V.Print.Layout.printText gen (view' f) = J5V.Print.Layout.printText gen (view f) := by
+      unfold J5V.Print.Layout.printText J5V.Print.Layout.printFile
+      rw [hview f]
+    rw [this]
+  unfold printAll
+  rw [hfun]
+  exact ⟨rfl, rfl⟩
+
 /-! ## Non-vacuity -/
 
 /-- a two-file package (second file refers to the first) meeting the hypotheses of `C14_perm_files` -/
@@ -205,6 +253,27 @@ example : DistinctExports
     [ { path := b!"a", pkg := b!"p", exports := [(b!"A", ⟨b!"p", b!"A", b!"a", .message false⟩)], depPkgs := [] },
       { path := b!"b", pkg := b!"p", exports := [(b!"B", ⟨b!"p", b!"B", b!"b", .message false⟩)], depPkgs := [] } ] := by
   unfold DistinctExports; decide
+
+/-- hypotheses of `C14_compile_print_deterministic`: `exBundle2`, its reversed package listing, the
+two files of `foo.v1` listed the other way round, and a view that is not constant (imports and
+package of the generated file) -/
+def exBundle2r : Bundle := { pkgs := exBundle2.pkgs.reverse }
+def exView (f : FileSkel) : J5V.Print.Layout.FileD :=
+  { (default : J5V.Print.Layout.FileD) with
+    pkg := String.ofList (f.pkg.map Char.ofNat),
+    imports := f.deps.map fun d => (String.ofList (d.map Char.ofNat), "") }
+
+example : exBundle2.pkgs.Perm exBundle2r.pkgs ∧ (exBundle2.pkgs.map (·.name)).Nodup ∧
+    (match exBundle2r.find b!"foo.v1" with
+     | some p => decide (p.files.length = 2)
+     | none => false) = true ∧
+    (match loadPkg exBundle2r (exBundle2r.pkgs.length + 1) [] b!"foo.v1" with
+     | .ok l => decide ((l.exports.map (·.1)).Nodup) && decide ((l.files.map (·.name)).Nodup)
+     | _ => false) = true ∧
+    (match printAll "gen" exView (compilePkg exBundle2 b!"bar.v1") with
+     | .ok [(n, _)] => decide (n = b!"bar/v1/c.j5s.proto")
+     | _ => false) = true :=
+  ⟨(List.reverse_perm _).symm, by decide, by decide, by decide, by decide⟩
 
 end J5V.Props.C14
 
@@ -261,5 +330,30 @@ theorem C14_src_map_ranges_classified :
     (∀ r ∈ mapRanges, r ∈ classified.map (·.1) ∨ (r.1, r.2.1, r.2.2.1) ∈ sliceRanges) ∧
     (∀ c ∈ classified, c.1 ∈ mapRanges) := by
   decide
+
+end J5V.Props.C14
+
+/-! ## Obligation over facts regenerated from the current source (`extract builders`)
+
+`fileContext.ensureImport` (j5convert/builders.go) statement by statement: the two explicit panics
+(`Eff.imp`'s panic arms), return when the path is the file's own name, return when already present,
+append, then `sort.Strings` on the SAME list — the shape `Compile.File.ensureImport` mirrors
+("imports kept sorted on insertion", the first C14 mechanism). A removed sort, another order of the
+statements, or any new statement fails the obligation. -/
+namespace J5V.Props.C14
+open J5V.Generated.Builders
+
+theorem C14_src_ensure_import_sorted :
+    ensureImportShape =
+      ["panic-if-empty", "panic-if-no-slash", "return-if-self", "return-if-present:fb.fdp.Dependency",
+       "append:fb.fdp.Dependency", "sort.Strings:fb.fdp.Dependency"] := by decide
+
+/-- no other code of j5convert sorts or re-orders a descriptor list: besides appends at the end,
+fresh literals and the in-place explicit zero enum value, the only write (a `sort.*` / `slices.*`
+call is recorded as `call:<fn>`) is the `sort.Strings` inside `ensureImport` -/
+theorem C14_src_only_imports_sorted :
+    descriptorWrites.filter (fun r =>
+        !(["append-end", "literal", "other:e.desc.Value[0] = value"].contains r.2.2.2)) =
+      [("builders.go", "fileContext.ensureImport", "fb.fdp.Dependency", "call:sort.Strings")] := by decide
 
 end J5V.Props.C14
